@@ -377,7 +377,7 @@ def replay(beh_path, mode="inline", nproc=NPROC, base_seed=None, fs=True, timeou
 # ----------------------------------------------------------------------------- verdicts and evidence
 
 def known_findings():
-    p = os.path.join(VERIF, "known_findings.json")
+    p = os.environ.get("VERIF_KNOWN_FINDINGS") or os.path.join(VERIF, "known_findings.json")  # the override is for experiments only
     if not os.path.exists(p):
         return {"findings": [], "fixed": []}
     return json.load(open(p))
